@@ -86,6 +86,43 @@ def stability_requires_twopl(rep, repo, rule):
               want='guard exactly (stab and not twopl)', construct='stab-twopl guard weakened: ' + ' & '.join(show(g) for g in extra), loc=e.loc)
 
 
+def check_tables(rep, repo, rule='C16.R8'):
+    pf = parser_facts(repo)
+    members = [m for m, _ in repo.enum_members(repo.rel('solver', 'enums.py'), 'Optimisation_options')]
+    N = len(members)
+    # ---- R8 tables ------------------------------------------------------------------------------
+    tup = repo.method('Options_parser', '_get_optimisation_tuples')
+    it = Interp(repo)
+    _, rv = it.run(tup, {'args': S('args')})
+    rows = []
+    if rv[0] == 'list':
+        for el in rv[1]:
+            if el[0] == 'tuple' and len(el[1]) == 2 and el[1][0][0] == 'attr' and el[1][0][1] == S('args') and is_enum_member(el[1][1]):
+                rows.append((el[1][0][2], el[1][1][2]))
+    rep.check(len(rows) == N and len(rv[1]) == N if rv[0] == 'list' else False, rule, tup.where,
+              'one (args.<dest>, member) row per criterion', got=rows, want='%d rows' % N, construct='tuple rows')
+    rep.check(sorted(m for _, m in rows) == sorted(members), rule, tup.where, 'tuple rows cover every enum member exactly once',
+              got=sorted(m for _, m in rows), want=sorted(members), construct='tuple members')
+    for dest, m in rows:
+        sp = spec.CRITERIA.get(m)
+        a = pf.by_dest.get(dest)
+        if sp is None:
+            rep.inconclusive(rule, tup.where, 'criterion %s is documented' % m, got='not in the documented criterion table')
+            continue
+        ok = a is not None and sp['dest'] == dest and sp['flag'] in a.flags and a.type == 'int'
+        rep.check(ok, rule, tup.where, 'row %s pairs the documented flag %s (int) with its criterion' % (m, sp['flag']),
+                  got=repr(a), want='dest=%s flag=%s type=int' % (sp['dest'], sp['flag']), construct='row %s <- %s' % (m, dest))
+        if a is not None:
+            want_list = sp['nextras'] > 0
+            rep.check((a.nargs is not None) == want_list, rule, tup.where,
+                      'flag %s takes %s' % (sp['flag'], 'position plus optional extras' if want_list else 'a single position'),
+                      got='nargs=%r' % a.nargs, want="nargs='+'" if want_list else 'no nargs', construct='nargs of %s' % dest)
+            rep.check(a.default is None and a.action == 'store', rule, tup.where, 'absent flag %s is delivered as None' % sp['flag'],
+                      got='action=%s default=%r' % (a.action, a.default), want='store / None', construct='default of %s' % dest)
+
+    return rows
+
+
 def run(rep, repo, tier):
     for k, v in RULES.items():
         rep.rule(k, v)
@@ -96,35 +133,7 @@ def run(rep, repo, tier):
     N = len(members)
     parse_where = pf.parse.where
 
-    # ---- R8 tables ------------------------------------------------------------------------------
-    tup = repo.method('Options_parser', '_get_optimisation_tuples')
-    it = Interp(repo)
-    _, rv = it.run(tup, {'args': S('args')})
-    rows = []
-    if rv[0] == 'list':
-        for el in rv[1]:
-            if el[0] == 'tuple' and len(el[1]) == 2 and el[1][0][0] == 'attr' and el[1][0][1] == S('args') and is_enum_member(el[1][1]):
-                rows.append((el[1][0][2], el[1][1][2]))
-    rep.check(len(rows) == N and len(rv[1]) == N if rv[0] == 'list' else False, 'C16.R8', tup.where,
-              'one (args.<dest>, member) row per criterion', got=rows, want='%d rows' % N, construct='tuple rows')
-    rep.check(sorted(m for _, m in rows) == sorted(members), 'C16.R8', tup.where, 'tuple rows cover every enum member exactly once',
-              got=sorted(m for _, m in rows), want=sorted(members), construct='tuple members')
-    for dest, m in rows:
-        sp = spec.CRITERIA.get(m)
-        a = pf.by_dest.get(dest)
-        if sp is None:
-            rep.inconclusive('C16.R8', tup.where, 'criterion %s is documented' % m, got='not in the documented criterion table')
-            continue
-        ok = a is not None and sp['dest'] == dest and sp['flag'] in a.flags and a.type == 'int'
-        rep.check(ok, 'C16.R8', tup.where, 'row %s pairs the documented flag %s (int) with its criterion' % (m, sp['flag']),
-                  got=repr(a), want='dest=%s flag=%s type=int' % (sp['dest'], sp['flag']), construct='row %s <- %s' % (m, dest))
-        if a is not None:
-            want_list = sp['nextras'] > 0
-            rep.check((a.nargs is not None) == want_list, 'C16.R8', tup.where,
-                      'flag %s takes %s' % (sp['flag'], 'position plus optional extras' if want_list else 'a single position'),
-                      got='nargs=%r' % a.nargs, want="nargs='+'" if want_list else 'no nargs', construct='nargs of %s' % dest)
-            rep.check(a.default is None and a.action == 'store', 'C16.R8', tup.where, 'absent flag %s is delivered as None' % sp['flag'],
-                      got='action=%s default=%r' % (a.action, a.default), want='store / None', construct='default of %s' % dest)
+    rows = check_tables(rep, repo, 'C16.R8')
 
     # ---- R2 range guards per criterion (unrolled over the literal tuple list) ----------------------
     helper = repo.method('Options_parser', '_get_ordered_optimisations')
